@@ -65,6 +65,8 @@ func genC15(r *h.Rng, tier string, idx int) *h.Plan {
 			if r.P(1, 6) {
 				op.N = int64(r.Range(2, 9)) // ttl in seconds
 			}
+			// "each due tick evaluates that rule (condition, then actions)": none / holds / finds nothing
+			op.C = r.Weighted([]int{6, 2, 2})
 			p.Ops = append(p.Ops, op)
 		case 1:
 			p.Ops = append(p.Ops, h.Op{K: "addplain", Loc: loc, Id: id})
@@ -101,6 +103,7 @@ type c15Item struct {
 	end     time.Time // removal/replacement/expiry instant (zero: still live)
 	dw      bool
 	fired   bool // one-shot known to have fired
+	condNo  bool // its condition finds nothing: ticks are evaluated, the action never runs
 	expires bool // `end` is an expiry instant: a tick due exactly then finds the rule expired
 }
 
@@ -261,6 +264,10 @@ func execC15(t *testing.T, plan *h.Plan, trace bool) *h.Result {
 				got := counts[loc+"|"+it.marker]
 				seen[loc+"|"+it.marker] = true
 				lo, hi := expected(it, now)
+				ticked := lo >= 1 // a tick that was due while the rule was registered has been delivered
+				if it.condNo {
+					lo, hi = 0, 0
+				}
 				if got > hi {
 					why := "more often than it was due"
 					if !it.end.IsZero() {
@@ -271,7 +278,7 @@ func execC15(t *testing.T, plan *h.Plan, trace bool) *h.Result {
 				if got < lo {
 					fail("tick-lost", "complete:"+schedKind(it), "%s: rule %s (schedule %q, registered %v, live until %s) has run %d times by +%v, expected %d", what, it.marker, it.sched, relTimes(it.regs, start), endStr(it, start), got, now.Sub(start), lo)
 				}
-				if it.oneShot && got >= 1 && it.end.IsZero() {
+				if it.oneShot && (got >= 1 || it.condNo && ticked) && it.end.IsZero() {
 					// a one-shot rule is deleted once it has run
 					it.fired = true
 				}
@@ -353,6 +360,13 @@ func execC15(t *testing.T, plan *h.Plan, trace bool) *h.Result {
 				}
 				if op.N > 0 {
 					rule["ttl"] = fmt.Sprintf("%ds", op.N)
+				}
+				switch op.C {
+				case 1:
+					rule["condition"] = map[string]interface{}{"code": "true"}
+				case 2:
+					rule["condition"] = map[string]interface{}{"code": "false"}
+					it.condNo = true
 				}
 				_, err := eng.Sys.AddRule(ctxFor(), op.Loc, op.Id, h.Canon(rule))
 				if err != nil {
